@@ -146,12 +146,30 @@ def text_forward(asm, acc, m, tup, alias=False, expr=False):
     register-alias constants, `RA8 = x8`, which sends the item through the alias-resolution pass)"""
     ops = [str(a) for a in tup]
     pre = ''
+    skip = 0
     if alias:
         fmt = operands.FORMATS[m]
-        for k, (kind, a) in enumerate(zip(fmt, tup)):
-            if not isinstance(kind, tuple) and kind not in ('cupper', 'nzshamt') and isinstance(a, int) and 0 <= a <= 31:
-                pre += 'RA%d_%d = %s\n' % (a, k, ['x%d' % a, operands.ABI[a], str(a)][(a + k) % 3])
-                ops[k] = 'RA%d_%d' % (a, k)
+        regpos = [k for k, (kind, a) in enumerate(zip(fmt, tup)) if not isinstance(kind, tuple) and kind not in ('cupper', 'nzshamt') and isinstance(a, int) and 0 <= a <= 31]
+        # alias only some of the register operands (which ones varies), the others stay plain registers
+        chosen = [k for j, k in enumerate(regpos) if (sum(x for x in tup if isinstance(x, int)) >> j) & 1 or len(regpos) == 1]
+        for k in chosen:
+            a = tup[k]
+            pre += 'RA%d_%d = %s\n' % (a, k, ['x%d' % a, operands.ABI[a], str(a)][(a + k) % 3])
+            ops[k] = 'RA%d_%d' % (a, k)
+        if len(regpos) >= 2:
+            # ... behind an instruction of the same kind whose register operands are *all* aliases, of other registers
+            decoy = list(tup)
+            dops = [str(a) for a in tup]
+            for k in regpos:
+                a = tup[k]
+                d = 8 + (a - 8 + 3) % 8 if 8 <= a <= 15 else (a + 7) % 29 + 3
+                decoy[k] = d
+                pre += 'RD%d_%d = x%d\n' % (d, k, d)
+                dops[k] = 'RD%d_%d' % (d, k)
+            if operands.expected(m, tuple(decoy))[0] == operands.ACCEPT and operands.expected(m, tup)[0] == operands.ACCEPT:
+                pre += m + ' ' + ', '.join(dops) + '\n'
+                skip = 2
+                acc['ctr']['text_behind_fully_aliased_instruction'] += 1
     if expr and m not in ('c.j', 'c.jal', 'c.beqz', 'c.bnez'):
         # (a lone token that is not a number in a pc-relative position names a location, so those keep literals)
         # integer operands written as expressions with the same value (`17 // 4`, `36 - 32`, `~-5`)
@@ -174,13 +192,15 @@ def text_forward(asm, acc, m, tup, alias=False, expr=False):
     st, exp = operands.expected(m, tup)
     if not o.ok:
         if st == operands.ACCEPT:
-            core.add_viol(acc, 'legal line %r is refused (%s: %s)' % (line, o.exc['type'], o.exc['msg']), {'kind': 'fwdtext', 'm': m, 'args': list(tup), 'alias': alias, 'expr': expr}, {})
+            core.add_viol(acc, 'legal line %r is refused (%s: %s)' % ((pre + line).replace('\n', ' ; '), o.exc['type'], o.exc['msg']), {'kind': 'fwdtext', 'm': m, 'args': list(tup), 'alias': alias, 'expr': expr}, {})
         return
     acc['nt'] += 1
     acc['ctr']['text_accepted:' + m] += 1
+    if skip:
+        o.out = o.out[skip:]
     dec = monitors.decode_any(m, int.from_bytes(o.out, 'little')) if len(o.out) == 2 else ('%d bytes' % len(o.out), o.out.hex())
     if st == operands.REJECT or dec != exp:
-        core.add_viol(acc, 'line %r assembles to %s which decodes to %r; the line named %s' % (line, o.out.hex(), dec, exp if st != operands.REJECT else 'something not representable'),
+        core.add_viol(acc, 'line %r assembles to %s which decodes to %r; the line named %s' % ((pre + line).replace('\n', ' ; '), o.out.hex(), dec, exp if st != operands.REJECT else 'something not representable'),
                       {'kind': 'fwdtext', 'm': m, 'args': list(tup), 'alias': alias, 'expr': expr}, {'status': st})
 
 
